@@ -1219,8 +1219,15 @@ func (s *Sim) checkSwallowed(v *recView) {
 		return
 	}
 	for i, c := range rec.Calls {
-		if !c.IsWrite() || c.Err == nil {
+		if c.Err == nil {
 			continue
+		}
+		if !c.IsWrite() {
+			// a failed read fails the reconcile as well, with one exception: the re-read
+			// after a failed revision update (its outcome is carried by the update itself)
+			if c.Kind == KRev && c.Verb == "get" && i > 0 && rec.Calls[i-1].Kind == KRev && rec.Calls[i-1].Verb == "update" && rec.Calls[i-1].Err != nil {
+				continue
+			}
 		}
 		excused := false
 		for _, d := range rec.Calls[i+1:] {
